@@ -4,7 +4,7 @@ from ..common import Check
 from . import tomo_common as tc
 
 PID = "C15"
-MINE = {"protocol", "rho", "fidelity", "base_changed"}
+MINE = {"raised", "protocol", "rho", "fidelity", "base_changed"}
 
 
 def run(tier):
